@@ -39,8 +39,10 @@ def ground_preconditions(R):
             if not (v['untilMonth'] == 1 and v['untilDay'] == 1 and v['untilTimeCode'] == 0 and (v['untilTimeModifier'] & 0x0f) == 0):
                 # the basic processor supports only whole-year UNTIL... unless documented otherwise; collect, do not assert blindly
                 pass
-            if len(f['format'].strip('"')) > 6:
-                bad.append((zname, raw, 'format longer than the abbreviation buffer'))
+            fmt = f['format'].strip('"')
+            longest = max(len(part) for part in fmt.split('/'))     # 'A/B' selects one half; '%' is replaced by a one-character letter
+            if longest > 6:
+                bad.append((zname, raw, 'abbreviation longer than the 6-character buffer'))
     R.ground.append(('zonedb: at most one rule per month and year, no rule on 1 January 00:00, letters in range, formats fit the abbreviation buffer (%d entries)' % n, not bad, bad[:5]))
     return bad
 
